@@ -116,7 +116,8 @@ pub fn gen_aud_nonce(r: &mut Rng) -> (String, String) {
             3 => "x.y.z".into(),
             4 => {
                 let mut s = String::new();
-                while s.len() < 1024 {
+                let want = *r.pick(&[1024usize, 1024, 1024, 3200, 5000]);
+                while s.len() < want {
                     s.push_str(&format!("{:x}", r.next()));
                 }
                 s
